@@ -1,11 +1,127 @@
-/- Line-protocol driver for C10 (stub until the property's models exist). -/
-import PyIpmi.Base.Proto
-open PyIpmi.Proto
+/-
+  Line-protocol driver for C10: the reference FRU device (Spec/FruDevice.lean) and the model of
+  the FRU transfer code (Model/FruXfer.lean) with the generated loop constants.
 
-def handleC10 (line : String) : String :=
-  match tokens line with
-  | ["ping"] => "pong"
+    dev <limit> <rejectCc> <short 0|1> <wmax> <id>:<hex>*   set the device (kept as initial state)   -> ok
+    x <cmd> <hex>                                           one request to the current device        -> <hex>
+    dump                                                    current contents                         -> <id>:<hex>*
+    run <shipped 0|1> <op> …     model on the INITIAL device -> <outcome> | <trace> | <contents>
+        read <id> <off|n> <cnt>      read_fru_data           outcome  ok <hex>
+        full <id>                    read_fru_data_full
+        write <id> <off> <hex>       write_fru_data          outcome  ok -
+        hdr <id>                     get_fru_inventory_header         ok <i>,<c>,<b>,<p>,<m>   (n = None)
+        area <id> <c|b|p>            get_fru_{chassis,board,product}_area
+        mr <id>                      get_fru_multirecord_area
+        inv <id>                     get_fru_inventory                ok <c> <b> <p> <m>       (n = absent)
+    cfg                                                     generated constants
+    trace ::= <cmd>:<hex>><hex>,…   (- when empty)
+-/
+import PyIpmi.Base.Proto
+import PyIpmi.Model.FruXfer
+import PyIpmi.Spec.FruDevice
+import PyIpmi.Gen.Loops10
+open PyIpmi PyIpmi.Proto PyIpmi.FruXfer PyIpmi.Spec.Fru
+
+structure St where
+  init : FruDev
+  cur : FruDev
+
+def parseFru (s : String) : Option (Nat × List Nat) :=
+  match s.splitOn ":" with
+  | [i, h] => do
+    let id ← i.toNat?
+    let bs ← ofHex h
+    pure (id, bs)
+  | _ => none
+
+def showFrus (l : List (Nat × List Nat)) : String :=
+  if l.isEmpty then "-" else " ".intercalate (l.map fun (i, c) => s!"{i}:{toHex c}")
+
+def showTrace (t : List Xchg) : String :=
+  if t.isEmpty then "-" else
+    ",".intercalate (t.map fun x => s!"{x.req.cmd}:{toHex x.req.payload}>{toHex x.rsp}")
+
+def optNat (s : String) : Option (Option Nat) :=
+  if s == "n" then some none else s.toNat?.map some
+
+def showOpt (o : Option Nat) : String :=
+  match o with
+  | none => "n"
+  | some v => toString v
+
+def showOptBytes (o : Option (List Nat)) : String :=
+  match o with
+  | none => "n"
+  | some v => toHex v
+
+def finish {α} (r : Res FruDev α) (f : α → String) : String :=
+  let o := match r.out with
+    | .ok a => "ok " ++ f a
+    | e => e.tag
+  s!"{o} | {showTrace r.w.trace} | {showFrus r.w.dev.frus}"
+
+def cfg : Cfg := PyIpmi.Gen.Loops10.fruCfg
+
+def runOp (d : FruDev) (shipped : Bool) (op : List String) : String :=
+  let w : World FruDev := ⟨d, []⟩
+  match op with
+  | ["read", id, off, cnt] =>
+    match id.toNat?, optNat off, cnt.toNat? with
+    | some id, some off, some cnt => finish (readFruData cfg respond w off cnt id) toHex
+    | _, _, _ => "bad-op"
+  | ["full", id] =>
+    match id.toNat? with
+    | some id => finish (readFruDataFull cfg respond w id) toHex
+    | _ => "bad-op"
+  | ["write", id, off, h] =>
+    match id.toNat?, off.toNat?, ofHex h with
+    | some id, some off, some data => finish (writeFruData cfg respond w data off id) (fun _ => "-")
+    | _, _, _ => "bad-op"
+  | ["hdr", id] =>
+    match id.toNat? with
+    | some id => finish (getHeader cfg respond w id) fun h =>
+        ",".intercalate [showOpt h.internal, showOpt h.chassis, showOpt h.board, showOpt h.product, showOpt h.multi]
+    | _ => "bad-op"
+  | ["area", id, a] =>
+    let ar : Option Area := if a == "c" then some .chassis else if a == "b" then some .board
+      else if a == "p" then some .product else none
+    match id.toNat?, ar with
+    | some id, some ar => finish (getInfoArea cfg respond w ar id) toHex
+    | _, _ => "bad-op"
+  | ["mr", id] =>
+    match id.toNat? with
+    | some id => finish (getMultirecord cfg respond shipped w id) toHex
+    | _ => "bad-op"
+  | ["inv", id] =>
+    match id.toNat? with
+    | some id => finish (getInventory cfg respond shipped w id) fun i =>
+        " ".intercalate [showOptBytes i.chassis, showOptBytes i.board, showOptBytes i.product, showOptBytes i.multi]
+    | _ => "bad-op"
   | _ => "bad-op"
 
+def handle (s : St) (line : String) : St × String :=
+  match tokens line with
+  | ["ping"] => (s, "pong")
+  | ["cfg"] => (s, s!"{cfg.initReq} {cfg.dec} {natList cfg.caught} {cfg.writeLen}")
+  | "dev" :: limit :: cc :: short :: wmax :: frus =>
+    match limit.toNat?, cc.toNat?, short.toNat?, wmax.toNat?, frus.mapM parseFru with
+    | some l, some c, some sh, some wm, some fs =>
+      let d : FruDev := ⟨fs, l, c, sh != 0, wm⟩
+      (⟨d, d⟩, "ok")
+    | _, _, _, _, _ => (s, "bad-op")
+  | ["x", cmd, h] =>
+    match cmd.toNat?, ofHex h with
+    | some c, some p =>
+      let r := respond s.cur c p
+      ({ s with cur := r.1 }, toHex r.2)
+    | _, _ => (s, "bad-op")
+  | ["dump"] => (s, showFrus s.cur.frus)
+  | "run" :: sh :: op =>
+    match sh.toNat? with
+    | some v => (s, runOp s.init (v != 0) op)
+    | none => (s, "bad-op")
+  | _ => (s, "bad-op")
+
 def main : IO Unit := do
-  loop (← IO.getStdin) (← IO.getStdout) handleC10
+  let d : FruDev := ⟨[], 0, 0, false, 0⟩
+  loopS (← IO.getStdin) (← IO.getStdout) handle ⟨d, d⟩
